@@ -29,6 +29,12 @@ pub fn new_attack_by_ids<T: LabelType>(
     af.new_attack_by_ids(from, to)
 }
 
+/// Builds a free-standing argument (the constructor of `Label` is crate-private); used to drive `arg_to_lit` with
+/// arbitrary identifiers.
+pub fn new_argument<T: LabelType>(id: usize, label: T) -> crate::aa::Argument<T> {
+    crate::utils::Label::new(id, label)
+}
+
 /// Calls the crate-private grounded extension computer.
 pub fn grounded_extension<T: LabelType>(af: &AAFramework<T>) -> Vec<&crate::aa::Argument<T>> {
     crate::utils::grounded_extension(af)
